@@ -87,6 +87,7 @@ ALL_MSGSETS = ("SIGNON", "SIGNUP", "BANK", "CC", "INV", "PROF")
 
 def profrs_doc(p, prof_url, trailing=True, msgsets=ALL_MSGSETS, closing=("Y", "Y")):
     svc = p.svc_url
+    svc_inv = getattr(p, "inv_url", None) or svc       # an institution may serve investment statements elsewhere
     avail = {
         "SIGNON": ("SIGNONMSGSET", [("SIGNONMSGSETV1", [msgsetcore(prof_url)])]),
         "SIGNUP": ("SIGNUPMSGSET", [("SIGNUPMSGSETV1", [msgsetcore(svc), ("WEBENROLL", [("URL", "https://enroll.invalid/")]),
@@ -95,7 +96,7 @@ def profrs_doc(p, prof_url, trailing=True, msgsets=ALL_MSGSETS, closing=("Y", "Y
         "BANK": ("BANKMSGSET", [("BANKMSGSETV1", [msgsetcore(svc), ("CLOSINGAVAIL", closing[0]),
                                                   ("EMAILPROF", [("CANEMAIL", "N"), ("CANNOTIFY", "N")])])]),
         "CC": ("CREDITCARDMSGSET", [("CREDITCARDMSGSETV1", [msgsetcore(svc), ("CLOSINGAVAIL", closing[1])])]),
-        "INV": ("INVSTMTMSGSET", [("INVSTMTMSGSETV1", [msgsetcore(svc), ("TRANDNLD", "Y"), ("OODNLD", "Y"),
+        "INV": ("INVSTMTMSGSET", [("INVSTMTMSGSETV1", [msgsetcore(svc_inv), ("TRANDNLD", "Y"), ("OODNLD", "Y"),
                                                        ("POSDNLD", "Y"), ("BALDNLD", "Y"), ("CANEMAIL", "N")])]),
         "PROF": ("PROFMSGSET", [("PROFMSGSETV1", [msgsetcore(prof_url)])]),
     }
@@ -165,12 +166,18 @@ class SimFI:
         self.msgsets = ALL_MSGSETS
         self.closing = ("Y", "Y")        # CLOSINGAVAIL of the bank / credit-card message sets
         self.cookie_attrs = False
+        self.inv_url = None              # set_inv_url(): the INVSTMT message set is advertised at another URL
         # tenant=(org, fid): this institution shares its URLs with others and answers only the requests whose
         # SONRQ names it in <FI><ORG>/<FID>
         self.tenant = tenant
         for url in sorted({prof_url, svc_url}):
             scheme, host, port, target = url_parts_q(url)
             net.register(scheme, host, port, self.handle, target, match=self.claims if tenant else None)
+
+    def set_inv_url(self, net, url):
+        self.inv_url = url
+        scheme, host, port, target = url_parts_q(url)
+        net.register(scheme, host, port, self.handle, target, match=self.claims if self.tenant else None)
 
     def claims(self, req):
         import re
@@ -190,6 +197,7 @@ class SimFI:
             k = sum(1 for p in self.profiles if p.n >= 0 and not getattr(p, "is_older", False))
             date = BASE_DATE + datetime.timedelta(days=7 * (k + 1), hours=self.index)
         p = Profile(f"P{n}@{self.name}", date, self.svc_url, self.name, n, date_style=n % 4)
+        p.inv_url = self.inv_url
         p.is_older = older
         self.profiles.append(p)
         if not older:
@@ -446,7 +454,7 @@ class SimFI:
         c.acct_fn = None
         c.stmt_status_fn = None
         c.reject_fn = None
-        for url in sorted({self.prof_url, self.svc_url}):
+        for url in sorted({self.prof_url, self.svc_url} | ({self.inv_url} if self.inv_url else set())):
             scheme, host, port, target = url_parts_q(url)
             net.register(scheme, host, port, c.handle, target, match=c.claims if c.tenant else None)
         return c
